@@ -5,6 +5,7 @@ Only property theorems and non-vacuity examples live here; helper lemmas are in
 every block size and merge limit.
 -/
 import PrecondVerif.Lemmas.Shapes
+import PrecondVerif.Lemmas.Partition
 
 namespace PrecondVerif.C06
 open PrecondVerif.Shapes
@@ -60,6 +61,34 @@ theorem split_pos (d b : Nat) (hd : 1 ≤ d) : ∀ s ∈ splitSizes d b, 1 ≤ s
 /-- Number of blocks along an axis: `⌈d / b⌉` in the code's `(d-1)//b + 1` form. -/
 theorem split_count (d b : Nat) :
     (splitSizes d b).length = if 0 < b ∧ b < d then (d - 1) / b + 1 else 1 := splitSizes_length d b
+
+/-- `BlockPartitioner`: merging the partition of ANY tensor (any rank, any dims, any block size)
+succeeds and returns a tensor with the same shape and the same entry at every in-bounds index. -/
+theorem merge_partition_id {α} [Inhabited α] (t : Tensor α) (b : Nat) :
+    ∃ u, mergePartitions t.shape b (partition t b) = some u ∧ u.Eqv t := by
+  have h := mergeAxesRev_partAxes (fun i => splitSizes (t.shape.getD i 0) b) (splitAxes t.shape b) [t]
+    (splitAxes_nodup _ _) (fun a _ => splitSizes_ne_nil _ _)
+    (by
+      intro u hu a ha
+      simp only [List.mem_singleton] at hu
+      subst hu
+      exact ⟨splitAxes_lt _ _ a ha, splitSizes_sum _ _⟩)
+  show ∃ u, (match mergeAxesRev (fun i => splitSizes (t.shape.getD i 0) b) (splitAxes t.shape b)
+      (partAxes (fun i => splitSizes (t.shape.getD i 0) b) (splitAxes t.shape b) [t]) with
+      | [u] => some u
+      | _ => none) = some u ∧ u.Eqv t
+  generalize mergeAxesRev (fun i => splitSizes (t.shape.getD i 0) b) (splitAxes t.shape b)
+      (partAxes (fun i => splitSizes (t.shape.getD i 0) b) (splitAxes t.shape b) [t]) = res at h
+  cases h with
+  | cons hab htl =>
+    cases htl
+    exact ⟨_, rfl, hab⟩
+
+/-- The number of blocks is the product of the per-axis block counts. -/
+theorem partition_count {α} (t : Tensor α) (b : Nat) :
+    (partition t b).length =
+      prod ((splitAxes t.shape b).map fun i => (splitSizes (t.shape.getD i 0) b).length) := by
+  rw [partition_eq_partAxes, partAxes_length]; simp
 
 /-- Row-major index maps are mutually inverse (every reshape is the identity on flat data). -/
 theorem ravel_unravel_id (shape : List Nat) (k : Nat) (h : k < prod shape) :
